@@ -1,13 +1,5 @@
-(** Root of extraction: requires every *model* file (never a proof file) and
-    names, per domain, the functions the OCaml drivers call.  [Separate
-    Extraction] of [roots] produces one .ml per library, sharing the datatypes
-    ([BinNums.positive], [BinNums.coq_Z], [Datatypes.nat], ...). *)
-From SP Require Base.Sat Core.CnfModel Core.Card.
-
-Definition roots_card :=
-  (Core.CnfModel.half_adder, Core.CnfModel.full_adder, Core.CnfModel.saturate_adder,
-   Core.CnfModel.ripple_carry, Core.CnfModel.ripple_saturate, Core.CnfModel.pop_count,
-   Core.Card.int_to_binary, Core.Card.run_request, Core.Card.combine_requests,
-   Base.Sat.sat).
-
-Definition roots := (roots_card).
+(** Root of extraction: one [Roots<Dom>.v] per domain names the functions the
+    OCaml driver [extract/drv_<dom>.ml] calls.  [Separate Extraction] of
+    [roots] produces one .ml per library, sharing the datatypes. *)
+From SP Require Extract.RootsCard.
+Definition roots := (RootsCard.roots).
